@@ -23,6 +23,33 @@ def is_padding_name(name):
     return bool(PADDING_RE.match(name))
 
 
+ADAPTER_SPECS = ("AsciiInteger", "AsciiFloat", "PaddedString", "StripNullBytes", "AsciiComplex")
+
+
+def canon_codec(steps):
+    """codec description for comparison: under one of the package's text / bytes adapters, HOW construct's own primitives are
+    composed (PaddedString(n, enc) or StringEncoded(FixedSized(n, NullStripped(GreedyBytes))), Bytes or NullStripped(Bytes)) is
+    not compared here - what the composition decodes to is decided by evaluating adapter and primitives together on field
+    contents (T7 rules).  Without such an adapter on top the primitives are compared as they stand."""
+    steps = list(steps)
+    top = [s_ for s_ in steps if s_.split("(")[0] in ADAPTER_SPECS]
+    if not top:
+        return steps
+    out = []
+    for s_ in steps:
+        name = s_.split("(")[0]
+        if name in ("StringEncoded", "NullStripped"):
+            continue
+        if name in ("PaddedString",) and "enc=" in s_ and s_ is steps[-1]:
+            out.append("<bytes>")
+            continue
+        if name == "Bytes" and s_ is steps[-1]:
+            out.append("<bytes>")
+            continue
+        out.append(s_)
+    return out
+
+
 def leaf_record(lf):
     return {
         "path": lf.name,
@@ -94,7 +121,7 @@ def compare(chk, rule, L, key, select=None, where_prefix=""):
             diffs.append(f"RESIZED: width {r['width']} -> {now['width']}")
         if now["kind"] != r["kind"]:
             diffs.append(f"RECODED: kind {r['kind']} -> {now['kind']}")
-        if now["codec"] != r["codec"]:
+        if canon_codec(now["codec"]) != canon_codec(r["codec"]):
             tag = "REATTR" if _strip_attrs(now["codec"]) == _strip_attrs(r["codec"]) else "RECODED"
             diffs.append(f"{tag}: {r['codec']} -> {now['codec']}")
         if now["strides"] != r["strides"]:
